@@ -1,6 +1,8 @@
 package keeper
 
 import (
+	"time"
+
 	"github.com/cosmos/cosmos-sdk/codec"
 	sdk "github.com/cosmos/cosmos-sdk/types"
 	sdkerrors "github.com/cosmos/cosmos-sdk/types/errors"
@@ -24,10 +26,13 @@ func NewGovMigrate(govKeeper types.GovKeeper, accountKeeper govtypes.AccountKeep
 }
 
 func (m *GovMigrate) Validate(ctx sdk.Context, _ codec.BinaryCodec, from sdk.AccAddress, to common.Address) error {
-	if err := m.govKeeper.IteratorInactiveProposal(ctx, ctx.BlockTime(), m.DepositPeriodCallback(ctx, from, to)); err != nil {
+	// the proposal queues are keyed by end time: every proposal that is still open ends in the future,
+	// so the scan must not stop at the current block time
+	endTime := time.Unix(253402300799, 0).UTC() // 9999-12-31
+	if err := m.govKeeper.IteratorInactiveProposal(ctx, endTime, m.DepositPeriodCallback(ctx, from, to)); err != nil {
 		return err
 	}
-	return m.govKeeper.IteratorActiveProposal(ctx, ctx.BlockTime(), m.VotePeriodCallback(ctx, from, to))
+	return m.govKeeper.IteratorActiveProposal(ctx, endTime, m.VotePeriodCallback(ctx, from, to))
 }
 
 func (m *GovMigrate) Execute(_ sdk.Context, _ codec.BinaryCodec, _ sdk.AccAddress, _ common.Address) error {
